@@ -414,7 +414,8 @@ theorem parseHex2_hexUpper (b : UInt8) :
   rw [if_neg (hexUpper_ne_plus _ h1), hexDigitVal_hexUpper _ h1, hexDigitVal_hexUpper _ h2]
   simp; omega
 
-theorem parseBlob_cons_plain (f : Nat) (b : UInt8) (rest : Bytes) (h : b ≠ 92) (hu : utf8Len b = 1) :
+theorem parseBlob_cons_plain (f : Nat) (b : UInt8) (rest : Bytes) (h : b ≠ 92) (h' : b ≠ 39)
+    (hu : utf8Len b = 1) :
     parseBlob (f + 1) (b :: rest) = (match parseBlob f rest with | .ok r => .ok (b :: r) | e => e) := by
   rw [parseBlob.eq_def]
   split
@@ -423,7 +424,13 @@ theorem parseBlob_cons_plain (f : Nat) (b : UInt8) (rest : Bytes) (h : b ≠ 92)
   · rename_i heq1 heq2
     simp only [List.cons.injEq] at heq2
     exact absurd heq2.1 h
-  · rename_i f' b' rest' hx heq1 heq2
+  · rename_i heq1 heq2
+    simp only [List.cons.injEq] at heq2
+    exact absurd heq2.1 h
+  · rename_i heq1 heq2
+    simp only [List.cons.injEq] at heq2
+    exact absurd heq2.1 h'
+  · rename_i f' b' rest' hx1 hx2 hx3 heq1 heq2
     simp only [List.cons.injEq] at heq2
     obtain ⟨h1, h2⟩ := heq2
     subst h1; subst h2
@@ -432,38 +439,50 @@ theorem parseBlob_cons_plain (f : Nat) (b : UInt8) (rest : Bytes) (h : b ≠ 92)
     simp [hu]
     cases parseBlob f rest <;> rfl
 
-/-- blobs without backslash and quote survive Display + FromStr -/
+/-- EVERY blob survives Display + FromStr (after the fix of `Blob::from_str`) -/
 theorem parseBlob_displayBlob : ∀ (bs : Bytes) (fuel : Nat), (displayBlob bs).length < fuel →
-    (∀ b ∈ bs, b ≠ 92 ∧ b ≠ 39) → parseBlob fuel (displayBlob bs) = .ok bs
-  | [], fuel, hf, _ => by
+    parseBlob fuel (displayBlob bs) = .ok bs
+  | [], fuel, hf => by
     cases fuel with
     | zero => simp at hf
     | succ f => simp [displayBlob, parseBlob]
-  | b :: bs, fuel, hf, hb => by
-    have hb0 := hb b (by simp)
-    have hbs : ∀ x ∈ bs, x ≠ 92 ∧ x ≠ 39 := fun x hx => hb x (by simp [hx])
+  | b :: bs, fuel, hf => by
     cases fuel with
     | zero => simp at hf
     | succ f =>
       unfold displayBlob
-      rw [if_neg hb0.1, if_neg hb0.2]
-      by_cases hp : 32 ≤ b.toNat ∧ b.toNat ≤ 126
-      · rw [if_pos hp]
-        simp only [displayBlob, if_neg hb0.1, if_neg hb0.2, if_pos hp, List.length_append,
-          List.length_cons, List.length_nil] at hf
-        have ih := parseBlob_displayBlob bs f (by omega) hbs
-        have hu : utf8Len b = 1 := by unfold utf8Len; simp; omega
-        show parseBlob (f + 1) (b :: displayBlob bs) = .ok (b :: bs)
-        rw [parseBlob_cons_plain f b _ hb0.1 hu, ih]
-      · rw [if_neg hp]
-        simp only [displayBlob, if_neg hb0.1, if_neg hb0.2, if_neg hp, List.length_append,
-          List.length_cons, List.length_nil] at hf
-        have ih := parseBlob_displayBlob bs f (by omega) hbs
-        have hb16 := b.toNat_lt
-        show parseBlob (f + 1) (92 :: 120 :: hexUpper (b.toNat / 16) :: hexUpper (b.toNat % 16) :: displayBlob bs) = .ok (b :: bs)
-        simp only [parseBlob, utf8Len_hexUpper _ (show b.toNat / 16 < 16 by omega),
-          utf8Len_hexUpper _ (show b.toNat % 16 < 16 by omega), parseHex2_hexUpper, ih]
-        simp
+      by_cases h92 : b = 92
+      · subst h92
+        simp only [displayBlob, if_true, List.length_append, List.length_cons, List.length_nil] at hf
+        have ih := parseBlob_displayBlob bs f (by omega)
+        show parseBlob (f + 1) (92 :: 92 :: displayBlob bs) = .ok (92 :: bs)
+        simp only [parseBlob, ih]
+      · rw [if_neg h92]
+        by_cases h39 : b = 39
+        · subst h39
+          simp only [displayBlob, if_neg h92, if_true, List.length_append, List.length_cons,
+            List.length_nil] at hf
+          have ih := parseBlob_displayBlob bs f (by omega)
+          show parseBlob (f + 1) (39 :: 39 :: displayBlob bs) = .ok (39 :: bs)
+          simp only [parseBlob, ih]
+        · rw [if_neg h39]
+          by_cases hp : 32 ≤ b.toNat ∧ b.toNat ≤ 126
+          · rw [if_pos hp]
+            simp only [displayBlob, if_neg h92, if_neg h39, if_pos hp, List.length_append,
+              List.length_cons, List.length_nil] at hf
+            have ih := parseBlob_displayBlob bs f (by omega)
+            have hu : utf8Len b = 1 := by unfold utf8Len; simp; omega
+            show parseBlob (f + 1) (b :: displayBlob bs) = .ok (b :: bs)
+            rw [parseBlob_cons_plain f b _ h92 h39 hu, ih]
+          · rw [if_neg hp]
+            simp only [displayBlob, if_neg h92, if_neg h39, if_neg hp, List.length_append,
+              List.length_cons, List.length_nil] at hf
+            have ih := parseBlob_displayBlob bs f (by omega)
+            have hb16 := b.toNat_lt
+            show parseBlob (f + 1) (92 :: 120 :: hexUpper (b.toNat / 16) :: hexUpper (b.toNat % 16) :: displayBlob bs) = .ok (b :: bs)
+            simp only [parseBlob, utf8Len_hexUpper _ (show b.toNat / 16 < 16 by omega),
+              utf8Len_hexUpper _ (show b.toNat % 16 < 16 by omega), parseHex2_hexUpper, ih]
+            simp
 
 /-! ### intervals -/
 
